@@ -211,7 +211,17 @@ def observe_forms(Request, body_text, qs='', ctype='rotate', delivery='plain'):
             raise AssertionError('raw body differs from what was sent')
     elif delivery == 'body-sniffed-first':
         r.body.read(3)
-    return _plain(r.forms), _plain(r.params)
+    forms, params = _plain(r.forms), _plain(r.params)
+    # reading the merged view changes neither of its sources; a copy of the request decodes to the same form
+    q_after = _plain(r.query)
+    if q_after != ref_decode(qs)[0]:
+        raise AssertionError(f'request.query reads {q_after!r} after request.params was read (query string {qs!r})')
+    if _plain(r.forms) != forms:
+        raise AssertionError(f'request.forms reads {_plain(r.forms)!r} after request.params was read, {forms!r} before')
+    cp = r.copy()
+    if _plain(cp.forms) != forms or _plain(cp.query) != q_after:
+        raise AssertionError(f'request.copy() decodes to forms {_plain(cp.forms)!r} / query {_plain(cp.query)!r}; the request itself to {forms!r} / {q_after!r}')
+    return forms, params
 
 
 def check_pairs(res, Request, pairs, flavours, with_forms):
